@@ -203,6 +203,9 @@ class Variable(Node):
             res.append(v)
 
 
+MAX_TRANSCLUSIONS = 100000
+
+
 class Template(Node):
     def flatten(self, expander, variables, res):
         try:
@@ -280,6 +283,16 @@ class Template(Node):
             res.append(dummy_mark)
         else:
             p = expander.get_parsed_template(name)
+            if p:
+                # templates that include each other twice double the work with every level
+                # (2^45 inclusions from 45 short templates): like MediaWiki, stop including
+                # after a fixed number of inclusions per page and leave the rest out
+                count = getattr(expander, "transclusions", 0) + 1
+                expander.transclusions = count
+                if count > MAX_TRANSCLUSIONS:
+                    if count == MAX_TRANSCLUSIONS + 1:
+                        log.warning("more than %s template inclusions: further ones ignored" % MAX_TRANSCLUSIONS)
+                    p = None
             if p:
                 if DEBUG:
                     msg = f"EXPANDING {name!r} {var!r}  ===> "
